@@ -93,7 +93,7 @@ def Fields.names : Fields → List Bytes
   | .typed n _ r => n :: r.names
   | .bare n r => n :: r.names
 
-/-- number of type nodes (used for the non-triviality feature) -/
+/- number of type nodes (used for the non-triviality feature) -/
 mutual
 def Ty.size : Ty → Nat
   | .maybe t => t.size + 1
@@ -108,7 +108,7 @@ def Fields.size : Fields → Nat
   | .bare _ r => r.size
 end
 
-/-- "a parenthesised list is either all typed fields or all bare enum names" (C06), everywhere in the type;
+/- "a parenthesised list is either all typed fields or all bare enum names" (C06), everywhere in the type;
     an enum has at least one name (Go can only produce `TypeEnum` from a first bare name). -/
 mutual
 def Ty.homogeneous : Ty → Bool
@@ -124,7 +124,7 @@ def Fields.homogeneous : Fields → Bool
   | .bare _ r => r.homogeneous
 end
 
-/-- "an optional never directly wraps an optional" (C06), everywhere in the type -/
+/- "an optional never directly wraps an optional" (C06), everywhere in the type -/
 mutual
 def Ty.noMaybeMaybe : Ty → Bool
   | .maybe (.maybe _) => false
